@@ -58,7 +58,9 @@ def mk_app(in_p, out_p):
 def mk_inst(sx, cls, tag):
     vals = {}
     for f in FIELDS[cls]:
-        vals[f] = sx.int('%s_%s' % (tag, f), 0, 9) if f in ('a', 'b') else sx.text('%s_%s' % (tag, f), 1, alphabet='xyz')
+        wide = getattr(sx, 'tier', 'quick') == 'thorough'
+        vals[f] = sx.int('%s_%s' % (tag, f), -99 if wide else 0, 999 if wide else 9) if f in ('a', 'b') else \
+            sx.text('%s_%s' % (tag, f), 2 if wide else 1, alphabet='xyz')
     return cls(**vals), vals
 
 
